@@ -52,10 +52,10 @@ func parse(str string, l ZitiQlListener, el antlr.ErrorListener, debug bool) {
 	stream := antlr.NewCommonTokenStream(lexer, 0)
 	p.SetInputStream(stream)
 
+	// the parser comes from a pool: whatever listeners its previous user registered must not hear about this parse
+	p.RemoveErrorListeners()
 	if debug {
 		p.AddErrorListener(antlr.NewDiagnosticErrorListener(true))
-	} else {
-		p.RemoveErrorListeners()
 	}
 
 	p.AddErrorListener(el)
